@@ -206,11 +206,18 @@ class ConvUnit(Unit):
             if m in self.fs_methods or m in self.cv_methods: raise Untranslatable(f'{m} is defined')
         w = self.fs_methods.get('warn')
         self.warn_ok = w is not None and ast.unparse(w) == WARN_SRC
+        self.fdefs = {}
+        for n in body:
+            if isinstance(n, ast.FunctionDef):
+                if n.name in self.fdefs or stores.get(n.name, 0) > 0: raise Untranslatable(f'{n.name} is defined twice')
+                self.fdefs[n.name] = n
         self.records['FormatString'] = dict(FIELDS)
         self.classes['FormatString'] = 'FormatString'
         self.state_var = {}
 
+    # module-level helper functions are inlined at their call sites
     def helper_def(self, rec, name):
+        if rec is None and name in self.fdefs: return (self.fdefs[name], False)
         return None
 
 def generate(repo):
